@@ -30,6 +30,13 @@ ASSUMPTIONS = [
 ]
 TRUSTED = ["joblib/loky process pool as an ordered map"]
 TOL = 1e-12
+# theorems that carry a clause of the property (of 24 in Props/C11.lean); not listed: `rfl` restatements and modelled contracts
+# (skew_consistency, n_jobs_irrelevant, transform_empty), helpers (pixel_matZip_add, ensureIterable_dgm/_coll, effKernel_of_zeroCov,
+# uniform_rect_le_one, prod_rect_le_one)
+CORE_THEOREMS = ["PersimVerif.C11." + n for n in (
+    "image_append", "image_perm", "zero_weight_drops", "zero_weight_filter", "empty_is_zero", "transform_dgm", "transform_coll",
+    "single_vs_collection", "collection_of_singles", "nonneg", "total_le_weight", "nonneg_uniform", "nonneg_zero_cov",
+    "total_le_weight_uniform", "total_le_weight_zero_cov")]
 
 
 def imager(case):
@@ -361,6 +368,7 @@ def schedules(ctx):
 
 
 def run(ctx):
+    ctx.extra["core_theorems"] = CORE_THEOREMS
     ctx.extra["anchored_digest"] = {"images.transform/_ensure_iterable/_transform": common.source_digest(
         "persim/images.py", ["_transform", "transform", "_ensure_iterable", "fit_transform"])}
     cov = common.LineCov(["persim/images.py", "persim/images_weights.py"])
@@ -421,18 +429,24 @@ def replay(ctx, rep):
 
 
 MANIFEST = {
-    "text": "Proof, modulo the kernel being the normal CDF (C13's partial part; here the kernel is an arbitrary function and the CDF facts "
-            "are explicit hypotheses): Lean theorems about the model of _transform / _ensure_iterable / transform for diagrams and collections of "
-            "every size: image(A ++ B) = image(A) + image(B) pixelwise, invariance under permutation, zero-weight points drop out, the empty "
-            "diagram gives zeros of the configured resolution (also via the len==0 early return), a diagram alone gives the same image as inside "
-            "a collection at any position (both branches of _ensure_iterable and the IndexError case), skew=True on (b,d) equals skew=False on "
-            "(b,d-b), non-negative weights and rectangle masses give non-negative pixels, and the pixels telescope to the kernel's mass of the whole "
-            "imaged rectangle so the total is at most the total weight. Tied to the code on every run: the model's `transform` executed exactly at "
-            "Rat against the real transform on every call style (exact equality), `_ensure_iterable` against `ensureIterable`, and each law "
-            "evaluated on the real code for all kernel and weight kinds.",
+    "text": "Proof (24 theorems, of which 15 core), for the correlated Gaussian and user kernels modulo the kernel being a CDF (C13's partial "
+            "part; there the CDF facts are explicit hypotheses): Lean theorems about the model of _transform / _ensure_iterable / transform for "
+            "diagrams and collections of every size: image(A ++ B) = image(A) + image(B) pixelwise, invariance under permutation, zero-weight "
+            "points drop out, the empty diagram gives zeros of the configured resolution (also via the len==0 early return), a diagram alone "
+            "gives the same image as inside a collection at any position (both branches of _ensure_iterable and the IndexError case), "
+            "skew=True on (b,d) equals skew=False on (b,d-b) (by construction of the model), non-negative weights and rectangle masses give "
+            "non-negative pixels, and the pixels telescope to the kernel's mass of the whole imaged rectangle so the total is at most the total "
+            "weight. For the uniform kernel and for the Gaussian kernel with zero covariance (fast path and general path, every monotone Phi "
+            "into [0,1]) the two CDF hypotheses are discharged by C13's theorems: nonneg_uniform, nonneg_zero_cov, total_le_weight_uniform, "
+            "total_le_weight_zero_cov hold with no kernel hypothesis. Tied to the code on every run: the model's `transform` executed exactly "
+            "at Rat against the real transform on every call style (exact equality), `_ensure_iterable` against `ensureIterable`, and each "
+            "law evaluated on the real code for all kernel and weight kinds, including diagrams with points below the diagonal.",
     "note": "Trusted: Lean kernel + Mathlib (axioms propext/Classical.choice/Quot.sound); the correspondence harness; joblib.Parallel as an ordered "
             "map. 'Processed serially or by parallel workers, every n_jobs / worker scheduling' is runtime behaviour the functional model cannot "
             "exhibit: it is covered ONLY by the [T] schedule stream (n_jobs in {1,2,4}, thorough also {3,8,16}, collections of 1-17 diagrams, "
-            "bit-for-bit against the serial result). Float rounding is outside the theorems (additivity / permutation compared to 1e-12 x total weight).",
+            "bit-for-bit against the serial result). Non-negativity and total <= total weight for the CORRELATED Gaussian (bvn_cdf) rest on "
+            "the hypotheses of `nonneg` / `total_le_weight` and are covered by the [T] streams `nonneg` / `total_le_weight` only. Float "
+            "rounding is outside the theorems (additivity / permutation compared to 1e-12 x total absolute weight, no floor at 1; NaN images "
+            "from a fractional power of a negative persistence compared as NaN).",
     "technique": "Lean 4 theorems over a hand-written model + exact differential correspondence + metamorphic tests on the real code",
 }
